@@ -33,6 +33,8 @@ ListSrcs == {<< <<k, vs>> >> : k \in Keys, vs \in IF SrcMode = "small" THEN {vs 
                  ELSE {s \in {<< <<k1, vs1>>, <<k2, vs2>> >> : k1 \in Keys, k2 \in Keys, vs1 \in ValLists, vs2 \in {<<>>} \cup {<<v>> : v \in Vals}} : s[1][1] # s[2][1]}
 SrcArgs == {[A0 EXCEPT !.src = s, !.form = "pairs"] : s \in PairSrcs}
            \cup {[A0 EXCEPT !.src = s, !.form = "dictlist"] : s \in ListSrcs}
+\* in "small" mode | and |= (same update semantics as update / extend) take the short arguments only
+OrArgs(S) == IF SrcMode = "small" THEN {a \in S : Len(a.src) <= 1} ELSE S
 HdSrcArgs == SrcArgs \cup {[A0 EXCEPT !.src = s, !.form = "headers"] : s \in PairSrcs}
 
 KV  == {[A0 EXCEPT !.k = k, !.v = v] : k \in Keys, v \in Vals}
@@ -46,11 +48,11 @@ Ops(names, args) == {OA(n, a) : n \in names, a \in args}
 
 MdOps == Ops({"setitem", "add", "setdefault"}, KV) \cup Ops({"delitem", "poplist"}, K1) \cup Ops({"pop"}, KD)
          \cup Ops({"setlist", "setlistdefault"}, KVS) \cup Ops({"popitem", "popitemlist", "clear"}, {A0})
-         \cup Ops({"update", "ior", "or"}, SrcArgs)
+         \cup Ops({"update"}, SrcArgs) \cup Ops({"ior", "or"}, OrArgs(SrcArgs))
 HdOps == Ops({"set", "setitem", "add", "setdefault"}, KV) \cup Ops({"remove", "delitem"}, K1) \cup Ops({"pop"}, KD)
          \cup Ops({"setlist", "setlistdefault"}, KVS) \cup Ops({"pop_last", "popitem", "clear"}, {A0})
          \cup Ops({"pop_idx", "delitem_idx"}, IX) \cup Ops({"setitem_idx"}, IKV)
-         \cup Ops({"extend", "update", "ior", "or"}, HdSrcArgs)
+         \cup Ops({"extend", "update"}, HdSrcArgs) \cup Ops({"ior", "or"}, OrArgs(HdSrcArgs))
 HsOps == Ops({"add", "remove", "discard"}, K1) \cup Ops({"clear"}, {A0}) \cup Ops({"delitem_idx"}, IX)
          \cup Ops({"setitem_idx"}, IK)
          \cup Ops({"update"}, {[A0 EXCEPT !.vs = xs] : xs \in SeqsUpTo(Keys, MaxList)})
